@@ -406,9 +406,121 @@ func genBoundary(out *Output, rng *Rng, perLint int, cfg lint.Configuration) {
 		}
 		out.Stats["boundary_whole_runs"] = whole
 	}
+	// "any lint metadata": the window is what the lint value SHOWS when it is executed - copies of registered lints
+	// given other dates, and lints of an embedding program whose dates are set after registration
+	{
+		changed := 0
+		step := len(g.CertificateLints().Lints())/40 + 1
+		for li, l := range g.CertificateLints().Lints() {
+			if li%step != 0 && tier() != "thorough" {
+				continue
+			}
+			for k := 0; k < len(corpus.Certs) && k < 400; k += 7 {
+				cc := corpus.Certs[k]
+				var base *lint.LintResult
+				func() {
+					defer func() { recover() }()
+					base = l.Execute(cc.Cert, lint.NewEmptyConfig())
+				}()
+				if base == nil || base.Status < lint.Pass || base.Status > lint.Error {
+					continue
+				}
+				// the certificate is judged by the registered lint: a copy whose window starts one second later, and a
+				// copy whose window ends at the certificate's date, must not judge it
+				later := *l
+				later.EffectiveDate = cc.Cert.NotBefore.Add(time.Second)
+				later.IneffectiveDate = time.Time{}
+				sunset := *l
+				sunset.IneffectiveDate = cc.Cert.NotBefore
+				for vi, v := range []*lint.CertificateLint{&later, &sunset} {
+					var r *lint.LintResult
+					func() {
+						defer func() { recover() }()
+						r = v.Execute(cc.Cert, lint.NewEmptyConfig())
+					}()
+					changed++
+					if r != nil && r.Status >= lint.Pass && r.Status <= lint.Error {
+						out.Violate("C03|finding-outside-window:changed-copy:"+l.Name, fmt.Sprintf("a copy of the registered lint %s with %s reports %s for %s (notBefore %s), which lies outside the window the copy shows",
+							l.Name, []string{"EffectiveDate = notBefore + 1 s", "IneffectiveDate = notBefore"}[vi], r.Status, cc.File, cc.Cert.NotBefore.Format(time.RFC3339)),
+							map[string]interface{}{"lint": l.Name, "file": cc.File, "variant": vi}, "NE", r.Status.String())
+					}
+				}
+				break
+			}
+		}
+		for _, l := range g.RevocationListLints().Lints() {
+			for _, cc := range corpus.CRLs {
+				var base *lint.LintResult
+				func() {
+					defer func() { recover() }()
+					base = l.Execute(cc.CRL, lint.NewEmptyConfig())
+				}()
+				if base == nil || base.Status < lint.Pass || base.Status > lint.Error {
+					continue
+				}
+				later := *l
+				later.EffectiveDate = cc.CRL.ThisUpdate.Add(time.Second)
+				later.IneffectiveDate = time.Time{}
+				sunset := *l
+				sunset.IneffectiveDate = cc.CRL.ThisUpdate
+				for vi, v := range []*lint.RevocationListLint{&later, &sunset} {
+					var r *lint.LintResult
+					func() {
+						defer func() { recover() }()
+						r = v.Execute(cc.CRL, lint.NewEmptyConfig())
+					}()
+					changed++
+					if r != nil && r.Status >= lint.Pass && r.Status <= lint.Error {
+						out.Violate("C03|finding-outside-window:changed-copy:"+l.Name, fmt.Sprintf("a copy of the registered CRL lint %s with %s reports %s for %s (thisUpdate %s), outside the window the copy shows",
+							l.Name, []string{"EffectiveDate = thisUpdate + 1 s", "IneffectiveDate = thisUpdate"}[vi], r.Status, cc.File, cc.CRL.ThisUpdate.Format(time.RFC3339)),
+							map[string]interface{}{"lint": l.Name, "file": cc.File, "variant": vi}, "NE", r.Status.String())
+					}
+				}
+				break
+			}
+		}
+		// a lint of an embedding program: registered, used, then given a sunset date (and later an effective date) in place
+		if len(corpus.Certs) > 0 {
+			vreg := lint.VerifNewRegistry()
+			reg := vreg.Registry()
+			own := &lint.CertificateLint{LintMetadata: lint.LintMetadata{Name: "e_verif_own_window", Description: "x", Citation: "x", Source: lint.Community, EffectiveDate: time.Date(2000, 1, 1, 0, 0, 0, 0, time.UTC)},
+				Lint: func() lint.CertificateLintInterface { return alwaysPass{} }}
+			if err := vreg.RegisterCertificate(own); err == nil {
+				for k := 0; k < len(corpus.Certs) && k < 60; k += 9 {
+					cc := corpus.Certs[k]
+					if cc.Cert.NotBefore.Before(own.EffectiveDate) {
+						continue
+					}
+					first := zlint.LintCertificateEx(cc.Cert, reg).Results[own.Name]
+					own.IneffectiveDate = cc.Cert.NotBefore
+					second := zlint.LintCertificateEx(cc.Cert, reg).Results[own.Name]
+					own.IneffectiveDate = time.Time{}
+					own.EffectiveDate = cc.Cert.NotBefore.Add(time.Second)
+					third := zlint.LintCertificateEx(cc.Cert, reg).Results[own.Name]
+					own.EffectiveDate = time.Date(2000, 1, 1, 0, 0, 0, 0, time.UTC)
+					changed += 3
+					for vi, r := range []*lint.LintResult{second, third} {
+						if first != nil && first.Status == lint.Pass && r != nil && r.Status >= lint.Pass && r.Status <= lint.Error {
+							out.Violate("C03|finding-outside-window:changed-after-registration", fmt.Sprintf("a registered lint whose %s after registration reports %s for %s through LintCertificateEx, while the result's own metadata shows the new window",
+								[]string{"IneffectiveDate was set to the certificate's notBefore", "EffectiveDate was moved to notBefore + 1 s"}[vi], r.Status, cc.File),
+								map[string]interface{}{"file": cc.File, "variant": vi}, "NE", r.Status.String())
+						}
+					}
+				}
+			}
+		}
+		out.Stats["boundary_changed_metadata_runs"] = changed
+	}
 	out.Stats["boundary_runs"] = n
 	out.Stats["boundary_outside"] = outside
 	out.Stats["boundary_inside"] = inside
 }
 
 var _ = x509.ExtKeyUsageAny
+
+type alwaysPass struct{}
+
+func (alwaysPass) CheckApplies(c *x509.Certificate) bool { return true }
+func (alwaysPass) Execute(c *x509.Certificate) *lint.LintResult {
+	return &lint.LintResult{Status: lint.Pass}
+}
